@@ -527,4 +527,3 @@ func runIdxIntersect(c *core.Ctx) {
 	}
 	c.Check(resid && guarded, nil, fname(c, find), "residual(since,until)", P.Pos(find.Pos()), "candidates enter the result only if a matcher over exactly {Since, Until} of the filter accepts them", fmt.Sprintf("since/until are not applied on the index path (residual filter literal ok: %v, insertion guarded by its Match: %v)", resid, guarded))
 }
-
